@@ -6,12 +6,14 @@ From VQ Require Import Num Model.Vec Model.Core Model.Machine Model.Inventory Mo
 From VQ Require Import Glue.Pin_w_simvq Glue.Pin_w_rpq Glue.Pin_w_fsq Glue.Pin_w_lfq Glue.Pin_w_rfsq Glue.Pin_w_rlfq Glue.Pin_w_rsvq Glue.Pin_o_rpq_eval Glue.Pin_p_simvq_codebook.
 Import ListNotations.
 
+(* implicit *)
 Theorem C20_untouched_by_every_history :
   forall (V : Type) (inv : list entry) (fw : string -> bool) (ps : list (@sop V)) 
          (s : @store V) (n : string), fw n = false -> is_param inv n = false -> @srun V inv fw s ps n = s n.
 Proof. exact (@untouched_forever). Qed.
 Print Assumptions C20_untouched_by_every_history.
 
+(* implicit *)
 Theorem C20_optimiser_writes_parameters_only :
   forall (V : Type) (inv : list entry) (fw : string -> bool) (ws : list (string * V)) 
          (s : @store V) (n : string), is_param inv n = false -> @sstep V inv fw s (@SOpt V ws) n = s n.
@@ -25,24 +27,17 @@ Proof. exact (@simvq_frozen_codebook_is_persistent_buffer). Qed.
 Print Assumptions C20_simvq_frozen_codebook_is_buffer.
 
 Theorem C20_simvq_forward_has_no_write_site :
-  w_simvq.w_simvq = [].
+  w_simvq.w_simvq = pinned_w_simvq.
 Proof. exact (@pin_w_simvq). Qed.
 Print Assumptions C20_simvq_forward_has_no_write_site.
 
 Theorem C20_residual_simvq_no_write_site :
-  w_rsvq.w_rsvq = [].
+  w_rsvq.w_rsvq = pinned_w_rsvq.
 Proof. exact (@pin_w_rsvq). Qed.
 Print Assumptions C20_residual_simvq_no_write_site.
 
 Theorem C20_simvq_effective_codebook_is_transform_of_frozen :
-  p_simvq_codebook.p_simvq_codebook =
-       ["codebook=self.code_transform(self.frozen_codebook)";
-        "frozen=torch.randn(codebook_size, frozen_codebook_dim) * frozen_codebook_dim ** (-0.5) ; init_fn(codebook)";
-        "transform=codebook_transform";
-        "decode=get_at('[c] d, b ... -> b ... d', self.frozen_codebook, indices) ; self.code_transform(frozen_codes)";
-        "rpq.rand_projs = torch.empty(num_codebooks, dim, codebook_dim)";
-        "rpq.nn.init.xavier_normal_(rand_projs)"; "rpq.self.register_buffer('rand_projs', rand_projs)";
-        "rpq.self.vq = VectorQuantize(dim=codebook_dim * num_codebooks, heads=num_codebooks, codebook_size=codebook_size, use_cosine_sim=True, separate_codebook_per_head=True, **kwargs)"].
+  p_simvq_codebook.p_simvq_codebook = pinned_p_simvq_codebook.
 Proof. exact (@pin_p_simvq_codebook). Qed.
 Print Assumptions C20_simvq_effective_codebook_is_transform_of_frozen.
 
@@ -53,12 +48,12 @@ Proof. exact (@rpq_projection_is_persistent_buffer). Qed.
 Print Assumptions C20_rpq_projection_is_buffer.
 
 Theorem C20_rpq_only_write_is_eval :
-  w_rpq.w_rpq = ["RandomProjectionQuantizer.forward:self.vq:eval()"].
+  w_rpq.w_rpq = pinned_w_rpq.
 Proof. exact (@pin_w_rpq). Qed.
 Print Assumptions C20_rpq_only_write_is_eval.
 
 Theorem C20_rpq_forces_eval_before_call :
-  o_rpq_eval.o_rpq_eval = [("self.vq.eval", ""); ("self.vq", "x")].
+  o_rpq_eval.o_rpq_eval = pinned_o_rpq_eval.
 Proof. exact (@pin_o_rpq_eval). Qed.
 Print Assumptions C20_rpq_forces_eval_before_call.
 
@@ -100,7 +95,7 @@ Proof. exact (@fsq_implicit_tables_are_buffers). Qed.
 Print Assumptions C20_fsq_tables_are_buffers.
 
 Theorem C20_fsq_no_write_site :
-  w_fsq.w_fsq = [].
+  w_fsq.w_fsq = pinned_w_fsq.
 Proof. exact (@pin_w_fsq). Qed.
 Print Assumptions C20_fsq_no_write_site.
 
@@ -111,7 +106,7 @@ Proof. exact (@lfq_tables_are_buffers). Qed.
 Print Assumptions C20_lfq_tables_are_buffers.
 
 Theorem C20_lfq_no_write_site :
-  w_lfq.w_lfq = [].
+  w_lfq.w_lfq = pinned_w_lfq.
 Proof. exact (@pin_w_lfq). Qed.
 Print Assumptions C20_lfq_no_write_site.
 
@@ -122,12 +117,12 @@ Proof. exact (@rfsq_scales_buffer). Qed.
 Print Assumptions C20_rfsq_scales_buffer.
 
 Theorem C20_rfsq_no_write_site :
-  w_rfsq.w_rfsq = [].
+  w_rfsq.w_rfsq = pinned_w_rfsq.
 Proof. exact (@pin_w_rfsq). Qed.
 Print Assumptions C20_rfsq_no_write_site.
 
 Theorem C20_rlfq_no_write_site :
-  w_rlfq.w_rlfq = [].
+  w_rlfq.w_rlfq = pinned_w_rlfq.
 Proof. exact (@pin_w_rlfq). Qed.
 Print Assumptions C20_rlfq_no_write_site.
 
